@@ -5010,7 +5010,7 @@ func toStatementApi(s *oc.Statement) *api.Statement {
 			}
 		}(),
 		ExtCommunity: func() *api.CommunityAction {
-			if len(s.Actions.BgpActions.SetExtCommunity.SetExtCommunityMethod.CommunitiesList) == 0 {
+			if community_action(s.Actions.BgpActions.SetExtCommunity.Options) == api.CommunityAction_TYPE_UNSPECIFIED {
 				return nil
 			}
 			return &api.CommunityAction{
@@ -5019,7 +5019,7 @@ func toStatementApi(s *oc.Statement) *api.Statement {
 			}
 		}(),
 		LargeCommunity: func() *api.CommunityAction {
-			if len(s.Actions.BgpActions.SetLargeCommunity.SetLargeCommunityMethod.CommunitiesList) == 0 {
+			if community_action(string(s.Actions.BgpActions.SetLargeCommunity.Options)) == api.CommunityAction_TYPE_UNSPECIFIED {
 				return nil
 			}
 			return &api.CommunityAction{
